@@ -58,6 +58,9 @@ type Exec struct {
 	closureByTerm map[string]*closureRec
 	pend          []*pendingOb
 	frozen        *MemState
+	topContract   *Contract
+	topEntry      *MemState
+	sweepOnly     bool
 }
 
 type closureRec struct {
